@@ -79,6 +79,43 @@ func checkPrecedenceDescent(w *World, r *Report) {
 	}
 	r.floor("comparisons of two operator precedences", len(sites), 1)
 
+	// ---- R08.10: operators of equal precedence group from the left, all of them.  In a function
+	// that compares two precedences to decide about the descent, (a) the only questions asked of a
+	// precedence value are such ordered comparisons with another precedence — never an equality
+	// test and never a comparison with a constant (a per-class exception: "except for PREC_POWER"),
+	// and (b) a tie stops the descent: the comparison that lets the parser descend is strict
+	// (`next > cur` descends / `next <= cur` stops).
+	for fn := range climbers {
+		instrsOf(fn, func(in ssa.Instruction) {
+			bo, ok := in.(*ssa.BinOp)
+			if !ok {
+				return
+			}
+			switch bo.Op {
+			case token.EQL, token.NEQ, token.LSS, token.LEQ, token.GTR, token.GEQ:
+			default:
+				return
+			}
+			px := isPrecCall(bo.X, map[ssa.Value]bool{})
+			py := isPrecCall(bo.Y, map[ssa.Value]bool{})
+			if !px && !py {
+				return
+			}
+			construct := "precedences are only ordered against each other"
+			pos := w.posOf(bo.Pos())
+			_, cx := bo.X.(*ssa.Const)
+			_, cy := bo.Y.(*ssa.Const)
+			switch {
+			case (px && cy) || (py && cx):
+				r.bad("R08.10", ssaName(fn), construct, pos, "a precedence is compared with a constant inside the function that decides the descent: one precedence class is treated differently from the others (e.g. made right-associative), so `a ^ b ^ c` no longer groups from the left like every other chain of equal operators")
+			case px && py && (bo.Op == token.EQL || bo.Op == token.NEQ):
+				r.bad("R08.10", ssaName(fn), construct, pos, "two precedences are tested for equality inside the function that decides the descent: ties are singled out for special treatment, so some chains of equal operators do not group from the left")
+			case px && py:
+				r.ok("R08.10", ssaName(fn), construct, pos, "ordered comparison of two precedences", true)
+			}
+		})
+	}
+
 	// operator parsers: functions that (directly) ask for an operator's precedence
 	opParsers := map[*ssa.Function]bool{}
 	for _, fn := range w.pkgFuncs() {
